@@ -52,7 +52,7 @@ func Describe(x any) V {
 			v.Xs = append(v.Xs, Describe(e))
 		}
 		return v
-	case stackage.ComparisonOperator, UOp, LOp, *ZVOp, *ZPOp:
+	case stackage.ComparisonOperator, UOp, LOp, *ZVOp, *ZPOp, ZFOp:
 		return V{T: 'O', Op: opStr(tv.(stackage.Operator))}
 	case stackage.Stack:
 		return describeStack(tv, "n")
